@@ -18,6 +18,15 @@ Definition kw_last {A} (k : path) (kw : list (path * A)) : option A := kw_get k 
 Definition head_of (k : path) : string := fst (partition_key k).
 
 
+(** the keyword an object called [name] receives for its own parameter [t]:
+    specific "name_t" first, else the global "t" (unless the first component of
+    "t" is itself the name of an object of the collection) *)
+Definition eff (expected : list string) (kw : kwargs) (name : string) (t : path) : option val :=
+  match kw_last (name :: t) kw with
+  | Some v => Some v
+  | None => if mem (head_of t) expected then None else kw_last t kw
+  end.
+
 (** * The value every parameter receives: keyword, else positional, else current *)
 Definition pick (k p : option val) (old : Qc) : val :=
   match k with Some v => v | None => val_or p old end.
@@ -180,3 +189,133 @@ Definition C10_uni_unknown_names_ignored_stmt : Prop :=
 (** the nested form flattens to the flat form *)
 Definition C10_uni_nested_flattens_to_flat_stmt : Prop :=
   forall u, u_names_ok u = true -> flat_items_dict (u_get_params u false) = u_got u.
+
+(** * Bilateral *)
+Definition b_got (b : bilateral) : list (path * Qc) := items (b_get_params b true).
+(** both sides come from the same graph dictionary and the same distributions *)
+Fixpoint shape_eqb (es1 es2 : list edge) : bool :=
+  match es1, es2 with
+  | [], [] => true
+  | e1 :: r1, e2 :: r2 => String.eqb (e_name e1) (e_name e2) && Nat.eqb (kind_tag (e_kind e1)) (kind_tag (e_kind e2))
+                          && shape_eqb r1 r2
+  | _, _ => false
+  end.
+Definition same_shape (u1 u2 : uni) : bool :=
+  Nat.eqb (g_base (u_graph u1)) (g_base (u_graph u2)) && shape_eqb (u_edges u1) (u_edges u2).
+Fixpoint keys_eqb (k1 k2 : list path) : bool :=
+  match k1, k2 with
+  | [], [] => true
+  | a :: r1, b :: r2 => path_eqb a b && keys_eqb r1 r2
+  | _, _ => false
+  end.
+(** ... and set_distribution gave both sides distributions with the same parameters *)
+Definition same_dist_keys (u1 u2 : uni) : bool := keys_eqb (map fst (dists_items (u_dists u1))) (map fst (dists_items (u_dists u2))).
+Definition b_names_ok (b : bilateral) : bool :=
+  u_names_ok (b_ipsi b) && u_names_ok (b_contra b) && same_shape (b_ipsi b) (b_contra b)
+  && same_dist_keys (b_ipsi b) (b_contra b).
+Definition b_vals_ok (b : bilateral) : bool := u_vals_ok (b_ipsi b) && u_vals_ok (b_contra b).
+Definition b_wf (b : bilateral) : bool := b_names_ok b && b_vals_ok b.
+(** the documented list, per symmetry setting (what get_params reports) *)
+Definition b_items (b : bilateral) : list (path * Qc) :=
+  let i := b_ipsi b in let c := b_contra b in
+  match b_symT b, b_symL b with
+  | true, true => u_tumor_items i ++ u_lnl_items i ++ u_dist_items i
+  | true, false => u_tumor_items i ++ pre ["ipsi"] (u_lnl_items i) ++ pre ["contra"] (u_lnl_items c) ++ u_dist_items i
+  | false, true => pre ["ipsi"] (u_tumor_items i) ++ pre ["contra"] (u_tumor_items c) ++ u_lnl_items i ++ u_dist_items i
+  | false, false => pre ["ipsi"] (u_tumor_items i ++ u_lnl_items i) ++ pre ["contra"] (u_tumor_items c ++ u_lnl_items c)
+                    ++ u_dist_items i
+  end.
+(** the order in which positional values are consumed *)
+Definition b_set_order (b : bilateral) : list (path * Qc) :=
+  let i := b_ipsi b in let c := b_contra b in
+  match b_symT b, b_symL b with
+  | false, false => pre ["ipsi"] (u_tumor_items i) ++ pre ["contra"] (u_tumor_items c) ++ pre ["ipsi"] (u_lnl_items i)
+                    ++ pre ["contra"] (u_lnl_items c) ++ u_dist_items i
+  | _, _ => b_items b
+  end.
+
+(** * Midline, HPV *)
+Definition m_got (m : midline) : option (list (path * Qc)) := option_map items (m_get_params m true).
+Definition h_got (h : hpvmodel) : option (list (path * Qc)) := option_map items (h_get_params h true).
+
+(** * Known findings, stated as refutations with concrete witnesses *)
+(** D6: with tumor AND LNL spread asymmetric, set_params( *v) followed by
+    get_params(as_dict=False) does not return v although every value is valid *)
+Definition C10_positional_order_refuted_stmt : Prop :=
+  exists (b : bilateral) (v : list Qc),
+    b_wf b = true /\ b_symT b = false /\ b_symL b = false /\ length v = length (b_got b) /\ forallb in_unit v = true /\
+    snd (b_set_params b (vals v) []) = Some [] /\
+    map snd (b_got (fst (b_set_params b (vals v) []))) <> v /\
+    (* ... and what it returns instead is v read in the order in which the setter consumes *)
+    map snd (b_got (fst (b_set_params b (vals v) []))) = [nth 0 v 0%Qc; nth 1 v 0%Qc; nth 4 v 0%Qc; nth 2 v 0%Qc; nth 3 v 0%Qc; nth 5 v 0%Qc].
+Definition C10_midline_positional_order_refuted_stmt : Prop :=
+  exists (m : midline) (v : list Qc),
+    ml_symL m = false /\ option_map (@length _) (m_got m) = Some (length v) /\ forallb in_unit v = true /\
+    snd (m_set_params m (vals v) []) = Some [] /\
+    option_map (map snd) (m_got (fst (m_set_params m (vals v) []))) <> Some v.
+(** D8: HPVUnilateral: neither the keyword nor the positional round trip holds *)
+Definition C10_hpv_roundtrip_refuted_stmt : Prop :=
+  exists (h : hpvmodel) (names : list path) (v : list Qc),
+    option_map (map fst) (h_got h) = Some names /\ length v = length names /\ forallb in_unit v = true /\
+    snd (h_set_params h [] (kw_of names v)) = Some [] /\
+    option_map (map snd) (h_got (fst (h_set_params h [] (kw_of names v)))) <> Some v /\
+    snd (h_set_params h (vals v) []) = Some [] /\
+    option_map (map snd) (h_got (fst (h_set_params h (vals v) []))) <> Some v.
+
+(** * Bilateral: the value every parameter receives *)
+Definition sides : list string := ["ipsi"; "contra"].
+(** the keyword that reaches parameter [k] = object :: rest of the unilateral model on
+    side [side]; priority: "side_object_rest", "object_rest", "side_rest", "rest" *)
+Definition side_lk (side : string) (kw : kwargs) (k : path) : option val :=
+  match k with
+  | [] => None
+  | _ :: t => match eff sides kw side k with Some v => Some v | None => eff sides kw side t end
+  end.
+(** ... of a parameter as get_params reports it *)
+Definition b_lk (kw : kwargs) (k : path) : option val :=
+  match k with
+  | [] => None
+  | h :: t => if String.eqb h "ipsi" then side_lk "ipsi" kw t
+              else if String.eqb h "contra" then side_lk "contra" kw t
+              else side_lk "ipsi" kw k
+  end.
+Definition b_num_spread (b : bilateral) : nat := length (b_items b) - length (u_dist_items (b_ipsi b)).
+Definition b_new (b : bilateral) (a : args) (kw : kwargs) : list val := plan (b_lk kw) (b_set_order b) a.
+(** spread values in range; the distributions of BOTH sides accept (the contralateral
+    ones receive the same positional values but are not reported) *)
+Definition b_accepts (b : bilateral) (a : args) (kw : kwargs) : bool :=
+  let new := b_new b a kw in
+  is_some (all_unit (firstn (b_num_spread b) new))
+  && is_some (dists_put (u_maxt (b_ipsi b)) (u_dists (b_ipsi b)) (skipn (b_num_spread b) new))
+  && is_some (dists_put (u_maxt (b_contra b)) (u_dists (b_contra b))
+                (plan (side_lk "contra" kw) (u_dist_items (b_contra b)) (skipn (b_num_spread b) a))).
+
+Definition C10_bi_names_nodup_stmt : Prop :=
+  forall b, b_names_ok b = true -> b_got b = b_items b /\ NoDup (map fst (b_items b)).
+Definition C10_bi_nested_flattens_to_flat_stmt : Prop :=
+  forall b, b_names_ok b = true -> flat_items_dict (b_get_params b false) = b_got b.
+(** complete description of Bilateral.set_params in all four symmetry settings: the
+    i-th value of the plan goes to the i-th name of [b_set_order] *)
+Definition C10_bi_set_spec_stmt : Prop :=
+  forall b a kw, b_names_ok b = true ->
+    let r := b_set_params b a kw in
+    if b_accepts b a kw
+    then exists qs, b_new b a kw = vals qs /\ snd r = Some (skipn (length (b_items b)) a)
+                    /\ map fst (b_got (fst r)) = map fst (b_items b)
+                    /\ (forall k q, In (k, q) (combine (map fst (b_set_order b)) qs) -> kw_get k (b_got (fst r)) = Some q)
+                    /\ b_names_ok (fst r) = true
+    else snd r = None.
+(** positional round trip in the three settings in which the orders agree *)
+Definition C10_bi_set_get_positional_stmt : Prop :=
+  forall b v rest, b_names_ok b = true -> (b_symT b || b_symL b) = true -> length v = length (b_items b) ->
+    let r := b_set_params b (vals v ++ rest) [] in
+    snd r <> None -> snd r = Some rest /\ map snd (b_got (fst r)) = v /\ map fst (b_got (fst r)) = map fst (b_items b).
+(** keyword round trip in all four settings *)
+Definition C10_bi_set_get_keyword_stmt : Prop :=
+  forall b v, b_names_ok b = true -> length v = length (b_items b) ->
+    let r := b_set_params b [] (kw_of (map fst (b_items b)) v) in
+    snd r <> None -> snd r = Some [] /\ map snd (b_got (fst r)) = v /\ map fst (b_got (fst r)) = map fst (b_items b).
+(** a keyword naming a reported parameter beats positional values and global names *)
+Definition C10_bi_keyword_over_positional_stmt : Prop :=
+  forall b a kw k q, b_names_ok b = true -> In k (map fst (b_items b)) -> b_lk kw k = Some (V q) ->
+    let r := b_set_params b a kw in snd r <> None -> kw_get k (b_got (fst r)) = Some q.
